@@ -147,13 +147,20 @@ func VerifC12Splice(v *verifrt.T) {
 		access := v.U8("access", k)
 		v.Assume(access&security.AllowMaster == 0)
 		expires := time.Unix(0, 0)
-		hasExp[k] = v.Bool("expires", k)
+		hasExp[k] = k == 0 && v.Bool("expires", k) // (quick: only the first key may expire)
+		if v.Bound("splicefull") == 1 {
+			hasExp[k] = v.Bool("expires", k)
+		}
 		if hasExp[k] {
 			exp[k] = v.U32("exp", k)
 			v.Assume(exp[k] != 0)
 			expires = time.Unix(int64(exp[k])+1262304000, 0)
 		}
-		s, kerr := svc.keygen.CreateKey(masterStr, targets[v.Choice(len(targets), "target", k)], access, expires)
+		ti := 0
+		if k == 1 || v.Bound("splicefull") == 1 {
+			ti = v.Choice(len(targets), "target", k)
+		}
+		s, kerr := svc.keygen.CreateKey(masterStr, targets[ti], access, expires)
 		v.Assert(kerr == nil && len(s) == 32, "C12.env.issued")
 		issued[k] = s
 	}
